@@ -94,9 +94,14 @@ Batch(kind, G(_)) ==
                                          first |-> {i \in bad : Cardinality({j \in bad : j < i}) < 40}]]))
           /\ fails' = Append(fails, l)
 
+(* C16 through the API: the same value element x sent inside a varbind, alone and followed by other octets (inside the varbind, after
+   the value).  r.alone / r.followed = projections of what the call returned (a value, or the name of the exception).  Whatever the
+   library makes of octets after a varbind's value (it may refuse them), it never returns a DIFFERENT value because of them. *)
+ApiExtGood(r) == (r.alone.k = "value" /\ r.followed.k = "value") => r.alone.v = r.followed.v
+
 TNext == /\ \/ Batch("IntBatch", IntGood) \/ Batch("OidBatch", OidGood) \/ Batch("MsgBatch", MsgGood)
             \/ Batch("ExtBatch", ExtGood) \/ Batch("TotBatch", TotGood)
-            \/ Batch("MsgExtBatch", MsgExtGood) \/ Batch("ApiBatch", ApiGood)
+            \/ Batch("MsgExtBatch", MsgExtGood) \/ Batch("ApiBatch", ApiGood) \/ Batch("ApiExtBatch", ApiExtGood)
          /\ (l' = Len(Rec) + 1) => PrintT(ToJson([fails |-> fails', nfails |-> Len(fails')]))
 TSpec == TInit /\ [][TNext]_tvars
 
